@@ -684,10 +684,20 @@ def _is_expression_pattern(pattern: str) -> bool:
     # - Variable comparisons like amount > 500, month == 12, source == "Amex"
     function_pattern = r'^(contains|normalized|anyof|startswith|fuzzy|regex|extract|split|substring|trim|exists)\s*\('
     variable_pattern = r'^(amount|month|year|day|source|description)\s*[<>=!]'
-    return bool(re.match(function_pattern, pattern)) or \
+    looks_like_expression = bool(re.match(function_pattern, pattern)) or \
            bool(re.match(variable_pattern, pattern)) or \
            pattern.startswith('field.') or \
            ' and ' in pattern or ' or ' in pattern or pattern.startswith('(')
+    if not looks_like_expression:
+        return False
+    # Legacy CSV patterns are regular expressions and may look the same, e.g.
+    # "(UBER|LYFT)" also starts with "(": it is an expression only if it parses as one.
+    from tally import expr_parser
+    try:
+        expr_parser.parse_expression(pattern)
+        return True
+    except expr_parser.ExpressionError:
+        return False
 
 
 def _resolve_dynamic_tags(
